@@ -601,6 +601,7 @@ func main() {
 		}
 		check2D(r)
 		ballStage(r, false)
+		queryStage(r, false)
 		r.NontrivialAdd(2)
 		r.Sample(c)
 		r.Finish()
@@ -619,5 +620,6 @@ func main() {
 	r.Isolate("colliders2", func() { check2D(r) })
 	r.Isolate("solid-lattice", func() { solidLattice(r, th) })
 	r.Isolate("feature-balls", func() { ballStage(r, th) })
+	r.Isolate("shape-queries", func() { queryStage(r, th) })
 	r.Finish()
 }
